@@ -39,7 +39,13 @@ fn main() {
         // SimConnProvider scenario
         if w["case"].get("mode").and_then(|m| m.as_str()) == Some("full") {
             match full::FScn::from_json(&w["case"]) {
-                Some(s) => fullo::judge(&mut rep, &s),
+                Some(s) => {
+                    if ctx.extra.contains_key("dump") {
+                        // debugging aid: `--replay FILE --dump=1` prints results + socket log
+                        fullo::dump(&s);
+                    }
+                    fullo::judge(&mut rep, &s)
+                }
                 None => {
                     eprintln!("replay file has no usable full-stack case");
                     std::process::exit(3);
